@@ -9,13 +9,18 @@ From Coq Require Import Lia.
 (* ------------------------------------------------------------ the condition *)
 
 (* The handle o (object ob) is the cached object of its own ID, not idle, and
-   the cache cannot overflow while the ids are visited: the exact condition
-   under which the loop of LogOut(userID)/RefreshUser finds the handler's own
-   object. *)
+   the cache cannot overflow while the ids are visited (only the ids that are not
+   cached need room): a sufficient condition for the loop of LogOut(userID) /
+   RefreshUser to find the handler's own object. Not necessary: in a full cache
+   the victim may be another entry (HandlerUserEx.v: own_cached_gap_2). *)
+(* the listed IDs the loop will have to load: not cached, without repetition *)
+Definition uncached (s : st) (ids : list key) : list key :=
+  nodup_keys (filter (fun k => negb (has (cache s) k)) ids).
+
 Definition own_cached (s : st) (o : nat) (ob : obj) (ids : list key) : Prop :=
   hget s o = Some ob /\ lookup (cache s) (o_id ob) = Some o /\
   (0 <= c_cacheexpiry (conf s))%Z /\ (since (r_access (o_rec ob)) (now s) <= c_cacheexpiry (conf s))%Z /\
-  (c_maxcache (conf s) < 0 \/ Z.of_nat (length (cache s)) + Z.of_nat (length ids) <= c_maxcache (conf s))%Z.
+  (c_maxcache (conf s) < 0 \/ Z.of_nat (length (cache s)) + Z.of_nat (length (uncached s ids)) <= c_maxcache (conf s))%Z.
 
 Lemma listed_stored s u k r : lookup (store s) k = Some r -> user_is u (r_user r) = true -> In k (listed s u).
 Proof.
@@ -36,8 +41,10 @@ Proof.
   exists s'. split; [exact E|]. split; [eapply inv_sess_inv; exact I'|].
   assert (Hp : pinned s0 (o_id ob) o) by (split; [exact Hl | unfold obj_access; rewrite Ho; exact Hf]).
   assert (Hh : handle_is s0 o (o_id ob)) by (exists ob; split; [exact Ho | reflexivity]).
-  destruct (eus_pin _ v (map fst (cache s0) ++ ids) (o_id ob) o ids s0 I) as [P U]; try assumption.
-  - intros x Hx. apply in_or_app. right. exact Hx.
+  destruct (eus_pin _ v (map fst (cache s0) ++ uncached s0 ids) (o_id ob) o ids s0 I) as [P U]; try assumption.
+  - intros x Hx. apply in_or_app. destruct (has (cache s0) x) eqn:Eh.
+    + left. apply has_true in Eh. destruct Eh as [w Hw]. eapply lookup_Some_in_keys. exact Hw.
+    + right. unfold uncached. apply nodup_keys_In. apply filter_In. split; [exact Hx | rewrite Eh; reflexivity].
   - intros x w Hx. apply in_or_app. left. eapply lookup_Some_in_keys. exact Hx.
   - unfold bigK. rewrite app_length, map_length. destruct Hroom as [H|H]; [left; exact H | right; lia].
   - rewrite E in P, U. cbn [fst] in P, U. split; [apply P|].
@@ -90,166 +97,194 @@ Qed.
 Definition data_op (op : sop) : bool :=
   match op with SSet _ _ | SDel _ | SGet _ | SGetDel _ => true | _ => false end.
 
+(* every record the event saves satisfies P on its user field *)
+Definition ev_sat (P : option user -> Prop) (e : ev) : Prop :=
+  match e with EvSave _ r _ => P (r_user r) | _ => True end.
+
 (* a persistence event that writes no user: saves carry none *)
-Definition nouser_ev (e : ev) : Prop :=
-  match e with EvSave _ r _ => r_user r = None | _ => True end.
+Definition nouser_ev : ev -> Prop := ev_sat is_none.
 
-Definition nu := ufact is_none is_none.
+(* The handle carries a user field satisfying Pm (in memory); what the codec
+   stores of it satisfies Ps. Pm/Ps = no user (after LogOut(u)), or the new user
+   object / its ID (after RefreshUser). *)
+Section DataOps.
+  Variables (Ps Pm : option user -> Prop).
+  Hypothesis Pcodec : forall c r, Pm (r_user r) -> Ps (r_user (codec c r)).
 
-(* saving the handle (after an update of its data) when it carries no user *)
-Lemma nu_saved_hupd s o ob f k : hget s o = Some ob -> r_user (f (o_rec ob)) = None ->
-  nu s k -> nu (saved (hupd s o f) (o_id ob) (f (o_rec ob))) k.
-Proof.
-  intros Ho Hu [A B].
-  assert (Eh : hupd s o f = hput s o (mkObj (o_id ob) (f (o_rec ob)))) by (unfold hupd; rewrite Ho; reflexivity).
-  rewrite Eh. split.
-  - intros rr. unfold saved. sst. destruct (key_eq_dec k (o_id ob)) as [->|Hne].
-    + rewrite lookup_upsert_same. intro E. injection E as <-. apply none_codec. exact Hu.
-    + rewrite lookup_upsert_other by exact Hne. apply A.
-  - intros o2 ob2 Hl Hg. change (lookup (cache s) k = Some o2) in Hl.
-    change (hget (hput s o (mkObj (o_id ob) (f (o_rec ob)))) o2 = Some ob2) in Hg.
-    rewrite hget_hput in Hg. destruct (Nat.eqb o o2) eqn:Eb.
-    + rewrite Ho in Hg. injection Hg as <-. exact Hu.
-    + eapply B; eassumption.
-Qed.
+  Definition uf := ufact Ps Pm.
 
-Lemma nu_saved_same s o ob k : hget s o = Some ob -> r_user (o_rec ob) = None ->
-  nu s k -> nu (saved s (o_id ob) (o_rec ob)) k.
-Proof.
-  intros Ho Hu [A B]. unfold saved. split; sst.
-  - intros rr. destruct (key_eq_dec k (o_id ob)) as [->|Hne].
-    + rewrite lookup_upsert_same. intro E. injection E as <-. apply none_codec. exact Hu.
-    + rewrite lookup_upsert_other by exact Hne. apply A.
-  - exact B.
-Qed.
+  Lemma uf_saved_hupd s o ob f k : hget s o = Some ob -> Pm (r_user (f (o_rec ob))) ->
+    uf s k -> uf (saved (hupd s o f) (o_id ob) (f (o_rec ob))) k.
+  Proof.
+    intros Ho Hu [A B].
+    assert (Eh : hupd s o f = hput s o (mkObj (o_id ob) (f (o_rec ob)))) by (unfold hupd; rewrite Ho; reflexivity).
+    rewrite Eh. split.
+    - intros rr. unfold saved. sst. destruct (key_eq_dec k (o_id ob)) as [->|Hne].
+      + rewrite lookup_upsert_same. intro E. injection E as <-. apply Pcodec. exact Hu.
+      + rewrite lookup_upsert_other by exact Hne. apply A.
+    - intros o2 ob2 Hl Hg. change (lookup (cache s) k = Some o2) in Hl.
+      change (hget (hput s o (mkObj (o_id ob) (f (o_rec ob)))) o2 = Some ob2) in Hg.
+      rewrite hget_hput in Hg. destruct (Nat.eqb o o2) eqn:Eb.
+      + rewrite Ho in Hg. injection Hg as <-. exact Hu.
+      + eapply B; eassumption.
+  Qed.
 
-Definition step_facts (s s' : st) (o : nat) (ob : obj) : Prop :=
-  (exists ob', hget s' o = Some ob' /\ o_id ob' = o_id ob /\ r_user (o_rec ob') = None) /\
-  (forall k, nu s k -> nu s' k) /\
-  (exists new, evs s' = new ++ evs s /\ Forall nouser_ev new).
+  Lemma uf_saved_same s o ob k : hget s o = Some ob -> Pm (r_user (o_rec ob)) ->
+    uf s k -> uf (saved s (o_id ob) (o_rec ob)) k.
+  Proof.
+    intros Ho Hu [A B]. unfold saved. split; sst.
+    - intros rr. destruct (key_eq_dec k (o_id ob)) as [->|Hne].
+      + rewrite lookup_upsert_same. intro E. injection E as <-. apply Pcodec. exact Hu.
+      + rewrite lookup_upsert_other by exact Hne. apply A.
+    - exact B.
+  Qed.
 
-Lemma step_facts_refl s o ob : hget s o = Some ob -> r_user (o_rec ob) = None -> step_facts s s o ob.
-Proof.
-  intros Ho Hu. split; [exists ob; repeat split; assumption|]. split; [intros k H; exact H|].
-  exists []. split; [reflexivity | constructor].
-Qed.
+  Definition step_facts (s s' : st) (o : nat) (ob : obj) : Prop :=
+    (exists ob', hget s' o = Some ob' /\ o_id ob' = o_id ob /\ r_user (o_rec ob') = r_user (o_rec ob)) /\
+    (forall k, uf s k -> uf s' k) /\
+    (exists new, evs s' = new ++ evs s /\ Forall (ev_sat Ps) new).
 
-Lemma step_facts_upd s o ob f : plan s = [] -> hget s o = Some ob -> r_user (f (o_rec ob)) = None ->
-  step_facts s (saved (hupd s o f) (o_id ob) (f (o_rec ob))) o ob.
-Proof.
-  intros Hp Ho Hu. split; [|split].
-  - exists (mkObj (o_id ob) (f (o_rec ob))). split; [|split; [reflexivity | exact Hu]].
-    unfold saved, hget. sst. fold (hget (hupd s o f) o). rewrite hget_hupd, Nat.eqb_refl, Ho. reflexivity.
-  - intros k H. apply (nu_saved_hupd s o ob f k); assumption.
-  - exists [EvSave (o_id ob) (codec (conf (hupd s o f)) (f (o_rec ob))) true]. split.
-    + unfold saved, hupd. rewrite Ho. reflexivity.
-    + constructor; [|constructor]. cbn [nouser_ev]. apply none_codec. exact Hu.
-Qed.
+  Lemma step_facts_refl s o ob : hget s o = Some ob -> step_facts s s o ob.
+  Proof.
+    intros Ho. split; [exists ob; repeat split; assumption|]. split; [intros k H; exact H|].
+    exists []. split; [reflexivity | constructor].
+  Qed.
 
-Lemma step_facts_same s o ob : plan s = [] -> hget s o = Some ob -> r_user (o_rec ob) = None ->
-  step_facts s (saved s (o_id ob) (o_rec ob)) o ob.
-Proof.
-  intros Hp Ho Hu. split; [|split].
-  - exists ob. split; [exact Ho | split; [reflexivity | exact Hu]].
-  - intros k H. apply (nu_saved_same s o ob k); assumption.
-  - exists [EvSave (o_id ob) (codec (conf s) (o_rec ob)) true]. split; [reflexivity|].
-    constructor; [|constructor]. cbn [nouser_ev]. apply none_codec. exact Hu.
-Qed.
+  Lemma step_facts_upd s o ob f : plan s = [] -> hget s o = Some ob -> Pm (r_user (o_rec ob)) ->
+    r_user (f (o_rec ob)) = r_user (o_rec ob) ->
+    step_facts s (saved (hupd s o f) (o_id ob) (f (o_rec ob))) o ob.
+  Proof.
+    intros Hp Ho Hu Hf. assert (Hu' : Pm (r_user (f (o_rec ob)))) by (rewrite Hf; exact Hu). split; [|split].
+    - exists (mkObj (o_id ob) (f (o_rec ob))). split; [|split; [reflexivity | exact Hf]].
+      unfold saved, hget. sst. fold (hget (hupd s o f) o). rewrite hget_hupd, Nat.eqb_refl, Ho. reflexivity.
+    - intros k H. apply (uf_saved_hupd s o ob f k); assumption.
+    - exists [EvSave (o_id ob) (codec (conf (hupd s o f)) (f (o_rec ob))) true]. split.
+      + unfold saved, hupd. rewrite Ho. reflexivity.
+      + constructor; [|constructor]. cbn [ev_sat]. apply Pcodec. exact Hu'.
+  Qed.
 
-(* one key/value operation on a handle without user: no cookie, and whatever it
-   writes carries no user *)
-Lemma data_op_step s o ob had op : plan s = [] -> hget s o = Some ob -> r_user (o_rec ob) = None ->
-  data_op op = true ->
-  exists s' r, do_sop s o had op = (s', r, []) /\ step_facts s s' o ob.
-Proof.
-  intros Hp Ho Hu Hd.
-  assert (Hpu : forall f, plan (hupd s o f) = []) by (intro f; unfold hupd; rewrite Ho; exact Hp).
-  destruct op as [k v|k|k|k|w ex| | |]; try discriminate; cbn [do_sop]; unfold data_of; rewrite Ho.
-  - destruct (r_data (o_rec ob)) as [d|].
-    + assert (Ho1 : hget (hupd s o (fun r => set_data r (Some (kv_set d k v)))) o =
-                    Some (mkObj (o_id ob) (set_data (o_rec ob) (Some (kv_set d k v))))).
-      { rewrite hget_hupd, Nat.eqb_refl, Ho. reflexivity. }
-      rewrite (save_direct_ff _ _ _ (Hpu _) Ho1). cbn [o_id o_rec].
-      do 2 eexists. split; [reflexivity|]. apply (step_facts_upd s o ob (fun r => set_data r (Some (kv_set d k v)))); assumption.
-    + do 2 eexists. split; [reflexivity|]. apply step_facts_refl; assumption.
-  - destruct (r_data (o_rec ob)) as [d|].
-    + assert (Ho1 : hget (hupd s o (fun r => set_data r (Some (kv_del d k)))) o =
-                    Some (mkObj (o_id ob) (set_data (o_rec ob) (Some (kv_del d k))))).
-      { rewrite hget_hupd, Nat.eqb_refl, Ho. reflexivity. }
-      rewrite (save_direct_ff _ _ _ (Hpu _) Ho1). cbn [o_id o_rec].
-      do 2 eexists. split; [reflexivity|]. apply (step_facts_upd s o ob (fun r => set_data r (Some (kv_del d k)))); assumption.
-    + rewrite (save_direct_ff _ _ _ Hp Ho).
-      do 2 eexists. split; [reflexivity|]. apply step_facts_same; assumption.
-  - do 2 eexists. split; [reflexivity|]. apply step_facts_refl; assumption.
-  - destruct (r_data (o_rec ob)) as [d|].
-    + destruct (kv_get d k) as [v|].
-      * assert (Ho1 : hget (hupd s o (fun r => set_data r (Some (kv_del d k)))) o =
+  Lemma step_facts_same s o ob : plan s = [] -> hget s o = Some ob -> Pm (r_user (o_rec ob)) ->
+    step_facts s (saved s (o_id ob) (o_rec ob)) o ob.
+  Proof.
+    intros Hp Ho Hu. split; [|split].
+    - exists ob. split; [exact Ho | split; reflexivity].
+    - intros k H. apply (uf_saved_same s o ob k); assumption.
+    - exists [EvSave (o_id ob) (codec (conf s) (o_rec ob)) true]. split; [reflexivity|].
+      constructor; [|constructor]. cbn [ev_sat]. apply Pcodec. exact Hu.
+  Qed.
+
+  (* one key/value operation: no cookie, the handle keeps its ID and user field,
+     and whatever it writes satisfies Ps *)
+  Lemma data_op_step_gen s o ob had op : plan s = [] -> hget s o = Some ob -> Pm (r_user (o_rec ob)) ->
+    data_op op = true ->
+    exists s' r, do_sop s o had op = (s', r, []) /\ step_facts s s' o ob.
+  Proof.
+    intros Hp Ho Hu Hd.
+    assert (Hpu : forall f, plan (hupd s o f) = []) by (intro f; unfold hupd; rewrite Ho; exact Hp).
+    destruct op as [k v|k|k|k|w ex| | |]; try discriminate; cbn [do_sop]; unfold data_of; rewrite Ho.
+    - destruct (r_data (o_rec ob)) as [d|].
+      + assert (Ho1 : hget (hupd s o (fun r => set_data r (Some (kv_set d k v)))) o =
+                      Some (mkObj (o_id ob) (set_data (o_rec ob) (Some (kv_set d k v))))).
+        { rewrite hget_hupd, Nat.eqb_refl, Ho. reflexivity. }
+        rewrite (save_direct_ff _ _ _ (Hpu _) Ho1). cbn [o_id o_rec].
+        do 2 eexists. split; [reflexivity|].
+        apply (step_facts_upd s o ob (fun r => set_data r (Some (kv_set d k v)))); try assumption. reflexivity.
+      + do 2 eexists. split; [reflexivity|]. apply step_facts_refl; assumption.
+    - destruct (r_data (o_rec ob)) as [d|].
+      + assert (Ho1 : hget (hupd s o (fun r => set_data r (Some (kv_del d k)))) o =
                       Some (mkObj (o_id ob) (set_data (o_rec ob) (Some (kv_del d k))))).
         { rewrite hget_hupd, Nat.eqb_refl, Ho. reflexivity. }
         rewrite (save_direct_ff _ _ _ (Hpu _) Ho1). cbn [o_id o_rec].
-        do 2 eexists. split; [reflexivity|]. apply (step_facts_upd s o ob (fun r => set_data r (Some (kv_del d k)))); assumption.
-      * do 2 eexists. split; [reflexivity|]. apply step_facts_refl; assumption.
-    + do 2 eexists. split; [reflexivity|]. apply step_facts_refl; assumption.
-Qed.
+        do 2 eexists. split; [reflexivity|].
+        apply (step_facts_upd s o ob (fun r => set_data r (Some (kv_del d k)))); try assumption. reflexivity.
+      + rewrite (save_direct_ff _ _ _ Hp Ho).
+        do 2 eexists. split; [reflexivity|]. apply step_facts_same; assumption.
+    - do 2 eexists. split; [reflexivity|]. apply step_facts_refl; assumption.
+    - destruct (r_data (o_rec ob)) as [d|].
+      + destruct (kv_get d k) as [v|].
+        * assert (Ho1 : hget (hupd s o (fun r => set_data r (Some (kv_del d k)))) o =
+                        Some (mkObj (o_id ob) (set_data (o_rec ob) (Some (kv_del d k))))).
+          { rewrite hget_hupd, Nat.eqb_refl, Ho. reflexivity. }
+          rewrite (save_direct_ff _ _ _ (Hpu _) Ho1). cbn [o_id o_rec].
+          do 2 eexists. split; [reflexivity|].
+          apply (step_facts_upd s o ob (fun r => set_data r (Some (kv_del d k)))); try assumption. reflexivity.
+        * do 2 eexists. split; [reflexivity|]. apply step_facts_refl; assumption.
+      + do 2 eexists. split; [reflexivity|]. apply step_facts_refl; assumption.
+  Qed.
 
-(* clean-ups delete; they write nothing *)
-Lemma fire_evs : forall l s, plan s = [] ->
-  exists new, evs (fst (fire s l)) = new ++ evs s /\ Forall nouser_ev new.
-Proof.
-  induction l as [|[due k] t IH]; intros s Hp; cbn [fire].
-  - exists []. split; [reflexivity | constructor].
-  - destruct (due <=? now s)%Z.
-    + rewrite cache_delete_ff by exact Hp.
-      destruct (IH (deleted (set_cache s (remove (cache s) k)) k) Hp) as (new & E & Hn).
-      exists (new ++ [EvDelete k true]). split.
-      * rewrite E. unfold deleted. sst. rewrite <- app_assoc. reflexivity.
-      * apply Forall_app. split; [exact Hn | repeat constructor].
-    + destruct (IH s Hp) as (new & E & Hn). destruct (fire s t) as [s1 rest]. exists new. split; assumption.
-Qed.
+  (* clean-ups delete; they write nothing *)
+  Lemma fire_evs : forall l s, plan s = [] ->
+    exists new, evs (fst (fire s l)) = new ++ evs s /\ Forall (ev_sat Ps) new.
+  Proof.
+    induction l as [|[due k] t IH]; intros s Hp; cbn [fire].
+    - exists []. split; [reflexivity | constructor].
+    - destruct (due <=? now s)%Z.
+      + rewrite cache_delete_ff by exact Hp.
+        destruct (IH (deleted (set_cache s (remove (cache s) k)) k) Hp) as (new & E & Hn).
+        exists (new ++ [EvDelete k true]). split.
+        * rewrite E. unfold deleted. sst. rewrite <- app_assoc. reflexivity.
+        * apply Forall_app. split; [exact Hn | repeat constructor].
+      + destruct (IH s Hp) as (new & E & Hn). destruct (fire s t) as [s1 rest]. exists new. split; assumption.
+  Qed.
 
-Lemma fire_due_evs s : plan s = [] -> exists new, evs (fire_due s) = new ++ evs s /\ Forall nouser_ev new.
-Proof.
-  intro Hp. unfold fire_due. destruct (fire_evs (pending s) (set_pending s []) Hp) as (new & E & Hn).
-  destruct (fire (set_pending s []) (pending s)) as [s' rest]. exists new. split; assumption.
-Qed.
+  Lemma fire_due_evs s : plan s = [] -> exists new, evs (fire_due s) = new ++ evs s /\ Forall (ev_sat Ps) new.
+  Proof.
+    intro Hp. unfold fire_due. destruct (fire_evs (pending s) (set_pending s []) Hp) as (new & E & Hn).
+    destruct (fire (set_pending s []) (pending s)) as [s' rest]. exists new. split; assumption.
+  Qed.
 
-Lemma step_facts_trans s1 s2 s3 o ob ob2 : step_facts s1 s2 o ob -> hget s2 o = Some ob2 ->
-  step_facts s2 s3 o ob2 -> step_facts s1 s3 o ob.
-Proof.
-  intros ((ob2' & Ho2 & Hid2 & Hu2) & N12 & (n12 & E12 & F12)) Hg ((ob3 & Ho3 & Hid3 & Hu3) & N23 & (n23 & E23 & F23)).
-  assert (ob2' = ob2) by congruence. subst ob2'.
-  split; [exists ob3; split; [exact Ho3 | split; [congruence | exact Hu3]]|].
-  split; [intros k H; apply N23, N12, H|].
-  exists (n23 ++ n12). split; [rewrite E23, E12, app_assoc; reflexivity | apply Forall_app; split; assumption].
-Qed.
+  Lemma step_facts_trans s1 s2 s3 o ob ob2 : step_facts s1 s2 o ob -> hget s2 o = Some ob2 ->
+    step_facts s2 s3 o ob2 -> step_facts s1 s3 o ob.
+  Proof.
+    intros ((ob2' & Ho2 & Hid2 & Hu2) & N12 & (n12 & E12 & F12)) Hg ((ob3 & Ho3 & Hid3 & Hu3) & N23 & (n23 & E23 & F23)).
+    assert (ob2' = ob2) by congruence. subst ob2'.
+    split; [exists ob3; split; [exact Ho3 | split; congruence]|].
+    split; [intros k H; apply N23, N12, H|].
+    exists (n23 ++ n12). split; [rewrite E23, E12, app_assoc; reflexivity | apply Forall_app; split; assumption].
+  Qed.
 
-(* a script of key/value operations on a handle without user *)
-Lemma data_script base had : forall post s o ob, inv 0 base NX ND s -> hget s o = Some ob ->
-  r_user (o_rec ob) = None -> forallb data_op post = true ->
-  exists s' rs, run_script s o had post = (s', rs, []) /\ inv 0 base NX ND s' /\ step_facts s s' o ob.
+  (* a script of key/value operations *)
+  Lemma data_script_gen base had : forall post s o ob, inv 0 base NX ND s -> hget s o = Some ob ->
+    Pm (r_user (o_rec ob)) -> forallb data_op post = true ->
+    exists s' rs, run_script s o had post = (s', rs, []) /\ inv 0 base NX ND s' /\ step_facts s s' o ob.
+  Proof.
+    induction post as [|op t IH]; intros s o ob I Ho Hu Hd.
+    - exists s, []. split; [reflexivity|]. split; [exact I | apply step_facts_refl; assumption].
+    - cbn [forallb] in Hd. apply andb_true_iff in Hd. destruct Hd as [Hd1 Hd2].
+      pose proof (i_plan _ _ _ _ _ I) as Hp.
+      destruct (data_op_step_gen s o ob had op Hp Ho Hu Hd1) as (s1 & r & E1 & S1).
+      assert (H : hok 0 ND s o) by (split; [lia | exists ob; split; [exact Ho | intros []]]).
+      destruct (do_sop_inv _ _ _ _ _ had op I H) as (s1' & r' & ck' & E1' & I1 & _).
+      rewrite E1 in E1'. injection E1' as <- <- <-.
+      destruct (fire_due_inv _ _ _ _ I1) as (I2 & Hh & _).
+      destruct S1 as ((ob1 & Ho1 & Hid1 & Hu1) & N1 & (n1 & Ev1 & F1)).
+      assert (Ho2 : hget (fire_due s1) o = Some ob1) by (unfold hget; rewrite Hh; exact Ho1).
+      destruct (fire_due_evs s1 (i_plan _ _ _ _ _ I1)) as (n2 & Ev2 & F2).
+      assert (S2 : step_facts s (fire_due s1) o ob).
+      { split; [exists ob1; split; [exact Ho2 | split; assumption]|]. split.
+        - intros k Hk. apply ufact_fire_due; [apply (i_plan _ _ _ _ _ I1) | apply N1; exact Hk].
+        - exists (n2 ++ n1). split; [rewrite Ev2, Ev1, app_assoc; reflexivity | apply Forall_app; split; assumption]. }
+      rewrite run_script_cons, E1.
+      destruct (stops op r) eqn:Est.
+      + exists (fire_due s1), [r]. split; [reflexivity|]. split; [exact I2 | exact S2].
+      + assert (Hu1' : Pm (r_user (o_rec ob1))) by (rewrite Hu1; exact Hu).
+        destruct (IH (fire_due s1) o ob1 I2 Ho2 Hu1' Hd2) as (s3 & rs & E3 & I3 & S3).
+        rewrite E3. exists s3, (r :: rs). split; [reflexivity|]. split; [exact I3|].
+        eapply step_facts_trans; eassumption.
+  Qed.
+End DataOps.
+
+(* the statement about a handle without user, as C08U states it *)
+Lemma data_op_step s o ob had op : plan s = [] -> hget s o = Some ob -> r_user (o_rec ob) = None ->
+  data_op op = true ->
+  exists s' r, do_sop s o had op = (s', r, []) /\
+    (exists ob', hget s' o = Some ob' /\ o_id ob' = o_id ob /\ r_user (o_rec ob') = None) /\
+    (forall k, ufact is_none is_none s k -> ufact is_none is_none s' k) /\
+    (exists new, evs s' = new ++ evs s /\ Forall nouser_ev new).
 Proof.
-  induction post as [|op t IH]; intros s o ob I Ho Hu Hd.
-  - exists s, []. split; [reflexivity|]. split; [exact I | apply step_facts_refl; assumption].
-  - cbn [forallb] in Hd. apply andb_true_iff in Hd. destruct Hd as [Hd1 Hd2].
-    pose proof (i_plan _ _ _ _ _ I) as Hp.
-    destruct (data_op_step s o ob had op Hp Ho Hu Hd1) as (s1 & r & E1 & S1).
-    assert (H : hok 0 ND s o) by (split; [lia | exists ob; split; [exact Ho | intros []]]).
-    destruct (do_sop_inv _ _ _ _ _ had op I H) as (s1' & r' & ck' & E1' & I1 & _).
-    rewrite E1 in E1'. injection E1' as <- <- <-.
-    destruct (fire_due_inv _ _ _ _ I1) as (I2 & Hh & _).
-    destruct S1 as ((ob1 & Ho1 & Hid1 & Hu1) & N1 & (n1 & Ev1 & F1)).
-    assert (Ho2 : hget (fire_due s1) o = Some ob1) by (unfold hget; rewrite Hh; exact Ho1).
-    destruct (fire_due_evs s1 (i_plan _ _ _ _ _ I1)) as (n2 & Ev2 & F2).
-    assert (S2 : step_facts s (fire_due s1) o ob).
-    { split; [exists ob1; split; [exact Ho2 | split; assumption]|]. split.
-      - intros k Hk. apply ufact_fire_due; [apply (i_plan _ _ _ _ _ I1) | apply N1; exact Hk].
-      - exists (n2 ++ n1). split; [rewrite Ev2, Ev1, app_assoc; reflexivity | apply Forall_app; split; assumption]. }
-    rewrite run_script_cons, E1.
-    destruct (stops op r) eqn:Est.
-    + exists (fire_due s1), [r]. split; [reflexivity|]. split; [exact I2 | exact S2].
-    + destruct (IH (fire_due s1) o ob1 I2 Ho2 Hu1 Hd2) as (s3 & rs & E3 & I3 & S3).
-      rewrite E3. exists s3, (r :: rs). split; [reflexivity|]. split; [exact I3|].
-      eapply step_facts_trans; eassumption.
+  intros Hp Ho Hu Hd.
+  destruct (data_op_step_gen is_none is_none none_codec s o ob had op Hp Ho Hu Hd) as (s' & r & E & (ob' & A1 & A2 & A3) & B & C).
+  exists s', r. split; [exact E|]. split; [exists ob'; split; [exact A1 | split; [exact A2 | congruence]]|]. split; [exact B | exact C].
 Qed.
 
 (* ------------------------------------------------- the composite hu_tail *)
@@ -272,34 +307,49 @@ Proof.
   pose proof (sess_inv_inv s1 HI1) as I1.
   destruct (fire_due_inv _ _ _ _ I1) as (I2 & Hh & _).
   assert (Ho2 : hget (fire_due s1) o = Some ob1) by (unfold hget; rewrite Hh; exact Ho1).
-  destruct (data_script _ had post (fire_due s1) o ob1 I2 Ho2 Hu1 Hd) as (s' & rs & E3 & I3 & ((ob3 & Ho3 & Hid3 & Hu3) & N3 & (new & Ev3 & F3))).
+  destruct (data_script_gen is_none is_none none_codec _ had post (fire_due s1) o ob1 I2 Ho2 Hu1 Hd)
+    as (s' & rs & E3 & I3 & ((ob3 & Ho3 & Hid3 & Hu3) & N3 & (new & Ev3 & F3))).
   exists s1, s', rs, (o_rec ob1), new.
   split; [exact E|]. split.
   - unfold hu_tail. cbn [user_call]. rewrite E. unfold handle_view. rewrite Ho2, E3, Hid1. reflexivity.
   - split; [exact Hu1|]. split; [eapply inv_sess_inv; exact I3|].
-    split; [exists ob3; split; [exact Ho3 | split; [congruence | exact Hu3]]|].
+    split; [exists ob3; split; [exact Ho3 | split; congruence]|].
     split; [exact Ev3|]. split; [exact F3|].
     intros k Hk. apply ufact_nouser. apply N3. apply ufact_fire_due; [apply HI1|].
     apply nouser_to_ufact; [apply HI1 | apply Hn1; exact Hk].
 Qed.
 
-(* (3) The handler calls RefreshUser(u): its own handle carries the new object. *)
-Theorem hu_tail_refresh s o ob had u :
+(* (3) The handler calls RefreshUser(u), then key/value operations: its own
+   handle carries the new user object, every record written since carries the
+   user's ID, and so does every listed ID at the end. *)
+Theorem hu_tail_refresh s o ob had u post :
   sess_inv s -> own_cached s o ob (listed s (fst u)) -> In (o_id ob) (listed s (fst u)) ->
-  exists s1 mid,
+  forallb data_op post = true ->
+  exists s1 s' rs mid new,
     refresh_user s u = (s1, Ok tt) /\
-    hu_tail s o had (URefresh u) [] = (fire_due s1, [SOk], [], Some (o_id ob, mid)) /\
-    r_user mid = Some u /\ sess_inv (fire_due s1).
+    hu_tail s o had (URefresh u) post = (s', SOk :: rs, [], Some (o_id ob, mid)) /\
+    r_user mid = Some u /\ sess_inv s' /\
+    (exists ob', hget s' o = Some ob' /\ o_id ob' = o_id ob /\ r_user (o_rec ob') = Some u) /\
+    evs s' = new ++ evs (fire_due s1) /\ Forall (ev_sat (fun x => x = Some (fst u, 0%N))) new /\
+    (forall k, In k (listed s (fst u)) ->
+       (forall r, lookup (store s') k = Some r -> r_user r = Some (fst u, 0%N)) /\
+       (forall o2 ob2, lookup (cache s') k = Some o2 -> hget s' o2 = Some ob2 -> r_user (o_rec ob2) = Some u)).
 Proof.
-  intros HI Hown Hin.
+  intros HI Hown Hin Hd.
   destruct (refresh_user_handle s o ob u HI Hown) as (s1 & E & HI1 & Hl1 & (ob1 & Ho1 & Hid1 & Hu1) & Hn1).
   specialize (Hu1 Hin).
   pose proof (sess_inv_inv s1 HI1) as I1.
   destruct (fire_due_inv _ _ _ _ I1) as (I2 & Hh & _).
   assert (Ho2 : hget (fire_due s1) o = Some ob1) by (unfold hget; rewrite Hh; exact Ho1).
-  exists s1, (o_rec ob1). split; [exact E|]. split.
-  - unfold hu_tail. cbn [user_call]. rewrite E. unfold handle_view. rewrite Ho2, Hid1. reflexivity.
-  - split; [exact Hu1 | eapply inv_sess_inv; exact I2].
+  destruct (data_script_gen (is_uid u) (is_usr u) (usr_codec u) _ had post (fire_due s1) o ob1 I2 Ho2 Hu1 Hd)
+    as (s' & rs & E3 & I3 & ((ob3 & Ho3 & Hid3 & Hu3) & N3 & (new & Ev3 & F3))).
+  exists s1, s', rs, (o_rec ob1), new.
+  split; [exact E|]. split.
+  - unfold hu_tail. cbn [user_call]. rewrite E. unfold handle_view. rewrite Ho2, E3, Hid1. reflexivity.
+  - split; [exact Hu1|]. split; [eapply inv_sess_inv; exact I3|].
+    split; [exists ob3; split; [exact Ho3 | split; congruence]|].
+    split; [exact Ev3|]. split; [exact F3|].
+    intros k Hk. apply (N3 k). apply ufact_fire_due; [apply HI1|]. exact (Hn1 k Hk).
 Qed.
 
 (* the vocabulary, unfolded *)
@@ -307,12 +357,6 @@ Lemma own_cached_meaning s o ob ids :
   own_cached s o ob ids <->
   hget s o = Some ob /\ lookup (cache s) (o_id ob) = Some o /\
   (0 <= c_cacheexpiry (conf s))%Z /\ (since (r_access (o_rec ob)) (now s) <= c_cacheexpiry (conf s))%Z /\
-  (c_maxcache (conf s) < 0 \/ Z.of_nat (length (cache s)) + Z.of_nat (length ids) <= c_maxcache (conf s))%Z.
-Proof. reflexivity. Qed.
-
-Lemma step_facts_meaning s s' o ob :
-  step_facts s s' o ob <->
-  (exists ob', hget s' o = Some ob' /\ o_id ob' = o_id ob /\ r_user (o_rec ob') = None) /\
-  (forall k, ufact is_none is_none s k -> ufact is_none is_none s' k) /\
-  (exists new, evs s' = new ++ evs s /\ Forall nouser_ev new).
+  (c_maxcache (conf s) < 0 \/
+   Z.of_nat (length (cache s)) + Z.of_nat (length (nodup_keys (filter (fun k => negb (has (cache s) k)) ids))) <= c_maxcache (conf s))%Z.
 Proof. reflexivity. Qed.
